@@ -28,7 +28,7 @@ LEVEL_NOTE = "Trusted: z3 (linear/non-linear real arithmetic), the element-wise 
 def bounds(tier):
     if tier == "quick":
         return {"shapes": [(2, 3), (3, 3)], "windows": [3, 5]}
-    return {"shapes": [(1, 4), (2, 4), (3, 5), (4, 4), (5, 3), (6, 4), (4, 6), (8, 3)], "windows": [3, 5, 7, 9]}
+    return {"shapes": [(1, 4), (2, 4), (3, 5), (4, 4), (5, 3), (6, 4), (4, 6), (8, 3), (6, 6), (10, 3), (12, 2), (5, 8)], "windows": [3, 5, 7, 9]}
 
 
 def setup():
